@@ -91,6 +91,8 @@ pub fn parse_headers(t: &str) -> Option<HashMap<String, String>> {
 }
 
 pub fn parse_frame(t: &[&str]) -> Frame {
+    let t: Vec<&str> = t.iter().copied().filter(|x| !x.is_empty()).collect();
+    let t = &t[..];
     let topic = |a: &str, b: &str| TopicName::_create_unchecked(&s(a), &s(b));
     match t[0] {
         "RP" => Frame::RegisterPublisher(PublisherPayload { topic: topic(t[1], t[2]), retention_policy: t[3].parse().unwrap(), operations: parse_ops(t[4]) }),
